@@ -93,6 +93,13 @@ func programs(thorough bool, emit func(p program)) {
 			}
 		}
 	}
+	// chains reading MATCHED_VAR / MATCHED_VAR_NAME after a starter that matched several values:
+	// whether the chain completes must not depend on which value was matched last
+	for _, t1 := range []string{"ARGS_GET", "ARGS", "REQUEST_COOKIES"} {
+		for _, link := range []string{"SecRule MATCHED_VAR \"@rx ^[x1]\" \"t:none\"", "SecRule MATCHED_VAR \"@rx ^x\" \"t:lowercase\"", "SecRule MATCHED_VAR_NAME \"@rx :b$\" \"t:none\""} {
+			emit(program{conf: header + fmt.Sprintf("SecRule %s \"@rx .\" \"id:1,phase:2,pass,log,chain\"\n  %s\n", t1, link)})
+		}
+	}
 	// argument limit: which arguments survive must not depend on order
 	for _, t1 := range []string{"ARGS_GET", "ARGS"} {
 		emit(program{conf: header + "SecArgumentsLimit 2\n" + rule(1, t1, "", ops[0], "pass,log,setvar:tx.c=+1") + "\n"})
@@ -209,6 +216,9 @@ func describe(m map[string][]int) string {
 
 // classify derives a root-cause signature from the scenario's features.
 func classify(sc scen.Scenario, m map[string][]int) string {
+	if strings.Contains(sc.Conf, "SecRule MATCHED_VAR") {
+		return "chain-on-MATCHED_VAR-depends-on-which-value-matched-last"
+	}
 	return "unclassified:" + sc.Conf + "|" + sc.Req.URI + "|" + sc.Req.Body
 }
 
